@@ -45,7 +45,9 @@ class Prop(PropBase):
                     yield {"op": "fft", "name": name, "rank": rank, "seed": rng.randrange(1 << 30),
                            "norm": rng.choice([None, None, "ortho", "forward"]), "use_n": rng.random() < 0.4,
                            "axis": rng.randrange(-rank, rank), "dask": rng.random() < 0.3,
-                           "cplx": rng.random() < 0.5, "f32": rng.random() < 0.2}
+                           "cplx": rng.random() < 0.5, "f32": rng.random() < 0.2,
+                           # raw-sample dtypes: SciPy promotes every integer to double precision
+                           "idtype": rng.choice([None, None, "int8", "uint8", "int16", "int32", "float16"])}
         for nm in ("dct", "fftfreq", "next_fast_len", "FFT", "", "__wrapped__", "ifft3"):
             yield {"op": "name", "name": nm}
         for _ in range(120 if quick else 4000):
@@ -69,6 +71,8 @@ class Prop(PropBase):
             x = x + 1j * g.standard_normal(shape)
         if case["f32"]:
             x = x.astype(np.complex64 if np.iscomplexobj(x) else np.float32)
+        if case.get("idtype") and not np.iscomplexobj(x):
+            x = (x * 20).astype(case["idtype"])
         kw = {}
         if case["norm"]:
             kw["norm"] = case["norm"]
@@ -100,10 +104,11 @@ class Prop(PropBase):
             xin = x
         y = getattr(pb.fft, name)(xin, **kw)
         lazy = isinstance(y, self.da.Array)
+        lazy_dtype = str(y.dtype)
         yv = np.asarray(y)
         scale = float(np.max(np.abs(ref_np))) or 1.0
         out = {"shape": list(yv.shape), "ref_shape": list(ref_np.shape), "dtype": str(yv.dtype), "sp_dtype": str(ref_sp.dtype),
-               "lazy": lazy, "err_np": float(np.max(np.abs(yv - ref_np)) / scale) if yv.shape == ref_np.shape else -1.0,
+               "lazy": lazy, "lazy_dtype": lazy_dtype, "err_np": float(np.max(np.abs(yv - ref_np)) / scale) if yv.shape == ref_np.shape else -1.0,
                "same_as_scipy": bool(yv.shape == ref_sp.shape and np.array_equal(yv, ref_sp)) if not case["dask"] else
                bool(yv.shape == ref_sp.shape and np.allclose(yv, ref_sp, rtol=1e-5, atol=1e-6 * scale))}
         if name in ("fft", "ifft") and not case["use_n"] and not case["norm"]:
@@ -226,7 +231,7 @@ class Prop(PropBase):
         if case["op"] == "fft":
             if "err" in code:
                 return f"raised {code['err']}"
-            lim = (2e-4 if case["f32"] else 1e-10) * 8
+            lim = (2e-4 if (case["f32"] or code.get("sp_dtype") in ("complex64", "float32")) else 1e-10) * 8
             if code["shape"] != code["ref_shape"]:
                 return f"shape {code['shape']} != reference {code['ref_shape']}"
             if not (0 <= code["err_np"] <= lim):
@@ -235,6 +240,9 @@ class Prop(PropBase):
                 return f"values differ from the direct DFT by {code['err_direct']:.3g}"
             if code["dtype"] != code["sp_dtype"]:
                 return f"dtype {code['dtype']} != reference {code['sp_dtype']}"
+            if code.get("lazy_dtype", code["dtype"]) != code["sp_dtype"]:
+                return (f"the lazy result declares dtype {code['lazy_dtype']} but computes to {code['dtype']} "
+                        f"(input dtype {case.get('idtype') or 'float'})")
             if code["lazy"] != case["dask"]:
                 return "Dask input must give a lazy Dask result (and NumPy input a NumPy result)"
             if not code["dir_ok"]:
